@@ -53,6 +53,7 @@ func checkC19(c *Ctx) {
 	c.Floor("taint sinks", n, 300, "Summary and Detail stores of ≈ 250 diagnostics in the evaluation packages")
 
 	c19TextWriter(c)
+	c19IteratorMarks(c)
 	c.NotCovered("leaks through go-cty conversion error texts and through application-supplied function errors (trusted / out of scope by the property's last sentence)")
 	c.NotCovered("boolean facts and lengths revealed by a message (\"value is null\", \"tuple with 3 elements\") are not string or number content")
 	c.Trust("error values and err.Error() are clean: go-cty v1.16.3 conversion errors name types and target attribute names, never values (two marginal exceptions: the 'use lowercase \"true\"' hint and MismatchMessage source attribute names)")
@@ -114,4 +115,103 @@ func guardNote(why string) string {
 		return ""
 	}
 	return " (" + why + ")"
+}
+
+// R3: what is bound in a dynamic block's iterator carries the for_each marks.
+func c19IteratorMarks(c *Ctx) {
+	c.Rule("R3 iter.marks: every cty value handed to (*iteration).MakeChild as the iterator key or value that is an element of a collection whose marks were stripped by Unmark() has those marks re-applied (WithMarks of the stripped marks / WithSameMarks of the original): expandSpec.newBlock protects block labels only by an IsMarked() test of the evaluated label, so an unmarked element of a collection marked as a whole would become a block label, a decoded map key and part of 'Duplicate block' messages")
+	mk := c.P.LookupFunc("ext/dynblock", "iteration.MakeChild")
+	if mk == nil {
+		c.CheckerFail("iter.marks", "anchor (*iteration).MakeChild does not resolve")
+		return
+	}
+	n := 0
+	for _, fn := range c.P.pkgFuncs("ext/dynblock") {
+		for _, b := range fn.Blocks {
+			for _, ins := range b.Instrs {
+				call, ok := ins.(*ssa.Call)
+				if !ok || call.Call.StaticCallee() != mk {
+					continue
+				}
+				c.Fn(FuncName(fn))
+				for ai, a := range call.Call.Args {
+					if !isCtyValue(a.Type()) {
+						continue
+					}
+					n++
+					c.Sites++
+					stripped, remarked := strippedElementOf(a)
+					name := "key"
+					if ai == len(call.Call.Args)-1 {
+						name = "value"
+					}
+					c.Check(stripped == nil || remarked, "iter.marks", FuncName(fn)+":call[MakeChild]."+name, call.Pos(), "iterator "+name+" carries the marks of the collection it was taken from",
+						"the iterator "+name+" is an element of a collection whose marks were stripped by Unmark() and are not re-applied: label expressions using the iterator pass the IsMarked() test and the content of the marked collection becomes a block label")
+				}
+			}
+		}
+	}
+	c.Floor("iter.marks arguments", n, 2, "key and value of the known for_each iteration")
+}
+
+// strippedElementOf: if v is (derived from) an element of the result of Unmark(), returns that
+// Unmark call and whether marks are re-applied on the way (WithMarks / WithSameMarks / Mark).
+func strippedElementOf(v ssa.Value) (unmark *ssa.Call, remarked bool) {
+	seen := map[ssa.Value]bool{}
+	var walk func(v ssa.Value, d int, descended bool) *ssa.Call
+	walk = func(v ssa.Value, d int, descended bool) *ssa.Call {
+		if v == nil || seen[v] || d > 16 {
+			return nil
+		}
+		seen[v] = true
+		switch x := v.(type) {
+		case *ssa.Extract:
+			if call, ok := x.Tuple.(*ssa.Call); ok {
+				ci := calleeOf(&call.Call)
+				if ci.isCtyValueMethod("Unmark", "UnmarkDeep", "UnmarkDeepWithPaths") && x.Index == 0 {
+					if descended {
+						return call
+					}
+					return nil
+				}
+				if ci.name == "Element" {
+					return walk(x.Tuple, d+1, true)
+				}
+			}
+			return walk(x.Tuple, d+1, descended)
+		case *ssa.Call:
+			ci := calleeOf(&x.Call)
+			if ci.isCtyValueMethod("WithMarks", "WithSameMarks", "Mark", "MarkWithPaths") {
+				remarked = true
+				return walk(x.Call.Args[0], d+1, descended)
+			}
+			if ci.name == "Element" || ci.name == "ElementIterator" || ci.name == "Index" || ci.name == "GetAttr" {
+				if x.Call.IsInvoke() {
+					if r := walk(x.Call.Value, d+1, true); r != nil {
+						return r
+					}
+				}
+				for _, a := range x.Call.Args {
+					if r := walk(a, d+1, true); r != nil {
+						return r
+					}
+				}
+				return nil
+			}
+			if ci.isCtyValueMethod() && len(x.Call.Args) > 0 {
+				return walk(x.Call.Args[0], d+1, descended)
+			}
+		case *ssa.Phi:
+			for _, e := range x.Edges {
+				if r := walk(e, d+1, descended); r != nil {
+					return r
+				}
+			}
+		case *ssa.ChangeType:
+			return walk(x.X, d+1, descended)
+		}
+		return nil
+	}
+	unmark = walk(v, 0, false)
+	return unmark, remarked
 }
